@@ -362,6 +362,7 @@ impl Rw {
         body_items[j] = Node::atom("$zzp");
         // optionally a conditional (single or nested pair) around an action nested in the body
         let mut nested_cond = false;
+        let mut adjacent_cond = false;
         if t.chance(1, 3) {
             // any action nested at any depth in the body (not the parameter's own position)
             fn desc(n: &Node, path: Vec<usize>, out: &mut Vec<Vec<usize>>) {
@@ -401,6 +402,18 @@ impl Rw {
                     let inner = if t.chance(1, 2) { Node::list(vec![Node::atom("if-equal"), r.clone(), r.clone(), x]) } else { x };
                     let wrapped = Node::list(vec![Node::atom("if-equal"), l, r, inner]);
                     *node_at_mut(&mut tmp, &path).unwrap() = wrapped;
+                    // a second conditional in the same list, right before it, that expands to
+                    // nothing (false) or whose place is taken by two conditionals of one item each
+                    if t.chance(1, 2) {
+                        let (parent, idx) = (path[..path.len() - 1].to_vec(), *path.last().unwrap());
+                        if let Some(Node::List(pl)) = node_at_mut(&mut tmp, &parent) {
+                            // never in head position (the head names the action)
+                            if idx >= 1 {
+                                pl.insert(idx, Node::list(vec![Node::atom("if-equal"), Node::atom("zq"), Node::atom("zr"), Node::atom("never-here"), Node::atom("nor-this")]));
+                                adjacent_cond = true;
+                            }
+                        }
+                    }
                     if let Node::List(b) = tmp.remove(0) {
                         body_items = b;
                     }
@@ -420,6 +433,9 @@ impl Rw {
         }
         if nested_cond {
             kind = "template-nested-conditional";
+        }
+        if adjacent_cond {
+            kind = "template-adjacent-conditionals";
         }
         let def = Node::list(vec![Node::atom("deftemplate"), Node::atom(&name), Node::list(vec![Node::atom("zzp")]), body]);
         let call = Node::list(vec![Node::atom(if t.chance(1, 2) { "template-expand" } else { "t!" }), Node::atom(&name), arg]);
@@ -443,13 +459,16 @@ impl Rw {
             return false;
         }
         let i = cands[t.pick(cands.len())];
-        let fname = format!("{}.kbd", self.fresh("inc"));
+        // the file name bare, quoted, or quoted because it contains a space
+        let style = t.pick(3);
+        let fname = if style == 2 { format!("my {}.kbd", self.fresh("inc")) } else { format!("{}.kbd", self.fresh("inc")) };
         let mut text = String::new();
         self.forms[i].print(&mut text);
         text.push('\n');
         self.files.push((fname.clone(), text));
-        self.forms[i] = Node::list(vec![Node::atom("include"), Node::atom(&fname)]);
-        self.applied.push("include".into());
+        let written = if style == 0 { fname.clone() } else { format!("\"{fname}\"") };
+        self.forms[i] = Node::list(vec![Node::atom("include"), Node::atom(&written)]);
+        self.applied.push(if style == 0 { "include" } else { "include-quoted" }.into());
         true
     }
 
@@ -490,7 +509,22 @@ impl Rw {
         let i = cands[t.pick(cands.len())];
         let l = self.forms[i].as_list().unwrap().clone();
         let mut out = vec![Node::atom("deflayermap"), Node::list(vec![l[1].clone()])];
-        for (k, a) in src.iter().zip(l[2..].iter()) {
+        let cells = &l[2..];
+        if t.chance(1, 2) && src.iter().collect::<std::collections::HashSet<_>>().len() == src.len() {
+            // `_` stands for the most frequent action (all defsrc keys not listed), at a random place
+            let best = (0..cells.len()).max_by_key(|j| (cells.iter().filter(|c| *c == &cells[*j]).count(), cells.len() - *j)).unwrap_or(0);
+            let mut pairs: Vec<(Node, Node)> = src.iter().zip(cells.iter()).filter(|(_, a)| *a != &cells[best]).map(|(k, a)| (k.clone(), a.clone())).collect();
+            let pos = t.pick(pairs.len() + 1);
+            pairs.insert(pos, (Node::atom("_"), cells[best].clone()));
+            for (k, a) in pairs {
+                out.push(k);
+                out.push(a);
+            }
+            self.forms[i] = Node::List(out);
+            self.applied.push("deflayermap-wildcard".into());
+            return true;
+        }
+        for (k, a) in src.iter().zip(cells.iter()) {
             out.push(k.clone());
             out.push(a.clone());
         }
@@ -591,7 +625,10 @@ fn judge_case(c: &TCase) -> Verdict {
             "template-if-equal" => "rw:template-if-equal",
             "template-list-arg" => "rw:template-list-arg",
             "template-nested-conditional" => "rw:template-nested-conditional",
+            "template-adjacent-conditionals" => "rw:template-adjacent-conditionals",
             "include" => "rw:include",
+            "include-quoted" => "rw:include-quoted",
+            "deflayermap-wildcard" => "rw:deflayermap-wildcard",
             "platform" => "rw:platform",
             _ => "rw:deflayermap",
         });
@@ -685,7 +722,7 @@ impl TypedProp for C16 {
     fn info(&self) -> PropInfo {
         PropInfo {
             level: "exploration",
-            rule: "configs: the whole-grammar generator (plausible profile, and the acceptance-boundary profile for the 'accepted iff' direction). Rewrites, 1-6 per case, at sites chosen by the tape: an action (deflayer cell, defalias value, or an action nested in tap-hold / multi / one-shot / tap-dance / fork / switch) named with defalias; an atom or list inside an action (of a deflayer, defalias, defvirtualkeys / deffakekeys, defchords or defchordsv2 entry) named with defvar (directly, through a second variable, built with concat); an action (also a virtual key's) wrapped into a one-parameter deftemplate and expanded with template-expand / t!, with an atom or a list as argument, optionally under a true if-equal and / or with a true if-equal (or a nested pair of them) around an action nested in the body; a top-level form moved into an included file; a top-level form wrapped in (platform (linux ..)); a deflayer expressed as the deflayermap listing every defsrc key. Oracle (metamorphic, both texts through the real parser): acceptance agrees; when accepted the layer tables, key outputs, mapped keys, overrides, sequences, options, virtual keys and chords are identical and three random histories give identical timestamped output. Non-trivial: >= 2 different rewrite kinds applied. Distinct: hash of the case.".into(),
+            rule: "configs: the whole-grammar generator (plausible profile, and the acceptance-boundary profile for the 'accepted iff' direction). Rewrites, 1-6 per case, at sites chosen by the tape: an action (deflayer cell, defalias value, or an action nested in tap-hold / multi / one-shot / tap-dance / fork / switch) named with defalias; an atom or list inside an action (of a deflayer, defalias, defvirtualkeys / deffakekeys, defchords or defchordsv2 entry) named with defvar (directly, through a second variable, built with concat); an action (also a virtual key's) wrapped into a one-parameter deftemplate and expanded with template-expand / t!, with an atom or a list as argument, optionally under a true if-equal and / or with a true if-equal (or a nested pair of them) around an action nested in the body; a top-level form moved into an included file (name bare, quoted, or quoted with a space in it); in a template body a false if-equal placed right before a true one in the same list; a top-level form wrapped in (platform (linux ..)); a deflayer expressed as the deflayermap listing every defsrc key, or with `_` standing for its most frequent action. Oracle (metamorphic, both texts through the real parser): acceptance agrees; when accepted the layer tables, key outputs, mapped keys, overrides, sequences, options, virtual keys and chords are identical and three random histories give identical timestamped output. Non-trivial: >= 2 different rewrite kinds applied. Distinct: hash of the case.".into(),
             assumptions: vec!["rewrites are applied only where the documentation allows the construct (variables inside actions, aliases as actions, include/platform at top level)".into()],
             extra: BTreeMap::new(),
         }
@@ -698,7 +735,7 @@ impl TypedProp for C16 {
             },
             exhaustive: false,
             distinct_by_construction: false,
-            required_classes: vec!["both-accepted", "both-rejected", "rw:alias", "rw:var", "rw:var-list", "rw:template", "rw:template-nested-conditional", "rw:include", "rw:platform", "rw:deflayermap", "two-or-more-rewrite-kinds"],
+            required_classes: vec!["both-accepted", "both-rejected", "rw:alias", "rw:var", "rw:var-list", "rw:template", "rw:template-nested-conditional", "rw:include", "rw:include-quoted", "rw:platform", "rw:deflayermap", "rw:deflayermap-wildcard", "rw:template-adjacent-conditionals", "two-or-more-rewrite-kinds"],
             hang_secs: 60,
         }
     }
